@@ -13,7 +13,7 @@ func zzDenseR() int { return 12 } // distance bound of a new index from the wind
 
 func zzC04DenseAdd(L int) {
 	zzvBound("dense window", "array length L in {0,1,4} with all cells symbolic plus 0 or 2 stale cells beyond len; window base unconstrained in int32; new index within 12 of the window (each feasible grown length is one fork)")
-	s := zzDenseState("s", L, zzvChoose("staleCells", 2)*2)
+	s := zzDenseState("s", L, []int{0, 2, 9}[zzvChoose("staleCells", 3)])
 	zzvAssume(zzInvDense(s))
 	pre := zzSnapDense(s)
 	i := zzIdx("i")
@@ -35,7 +35,7 @@ func ZZ_C04_dense_add_L4() { zzC04DenseAdd(4) }
 
 func zzC04DenseMergeDense(Ls, Lo int) {
 	zzvBound("dense merge", "receiver array length in {0,4}, argument in {0,1,3}, all cells symbolic, windows within 12 of each other")
-	s := zzDenseState("s", Ls, zzvChoose("staleCells", 2)*2)
+	s := zzDenseState("s", Ls, []int{0, 2, 9}[zzvChoose("staleCells", 3)])
 	o := zzDenseState("o", Lo, 0)
 	zzvAssume(zzInvDense(s))
 	zzvAssume(zzInvDense(o))
@@ -59,7 +59,7 @@ func ZZ_C04_dense_merge_dense_4_1() { zzC04DenseMergeDense(4, 1) }
 func ZZ_C04_dense_merge_dense_4_3() { zzC04DenseMergeDense(4, 3) }
 
 func zzC04DenseCopyClear(L int) {
-	s := zzDenseState("s", L, zzvChoose("staleCells", 2)*2)
+	s := zzDenseState("s", L, []int{0, 2, 9}[zzvChoose("staleCells", 3)])
 	zzvAssume(zzInvDense(s))
 	pre := zzSnapDense(s)
 	zzvCover("pre-state")
@@ -126,7 +126,7 @@ func ZZ_C04_dense_reweight_L4() { zzC04DenseReweight(4) }
 
 // observers on an arbitrary valid state: every answer equals the specification on the abstract map
 func zzC04DenseObservers(L int) {
-	s := zzDenseState("s", L, zzvChoose("staleCells", 2)*2)
+	s := zzDenseState("s", L, []int{0, 2, 9}[zzvChoose("staleCells", 3)])
 	zzvAssume(zzInvDense(s))
 	pre := zzSnapDense(s)
 	total := zzSumCells(pre.bins)
